@@ -234,6 +234,10 @@ def first_order_match(pat, t, inst=None):
                 inst.abs_name_inst[pat.var_name] = t.var_name
 
                 var_names = [v.name for v in pat.body.get_vars() + t.body.get_vars()]
+                # The new variable must also be distinct from variables in
+                # terms already assigned by the instantiation.
+                for inst_t in inst.values():
+                    var_names.extend(v.name for v in inst_t.get_vars())
                 nm = name.get_variant_name(pat.var_name, var_names)
                 v = Var(nm, T)
                 pat_body = pat.subst_type(inst.tyinst).subst_bound(v)
